@@ -218,6 +218,12 @@ class Run:
     def stat(self, k, n=1):
         self.stats[k] = self.stats.get(k, 0) + n
 
+    def _rebuilt_state_incomplete(self, blk):
+        held = self.cs.block_by_hash
+        if blk.prev not in held:
+            return True
+        return any(bid not in held for bid in self.world.uni.nodes)
+
     def degenerate(self):
         """An honest candidate that the code refuses is left out of the history (the reference ledger does not adopt it
         either), so a check that uses the history as SETUP can go on; refusing valid blocks is judged by the properties that
@@ -446,11 +452,17 @@ class Run:
                     self.fail("accepted_invalid", "accepted:C05:reported-id-not-below-target", "accepted block %s is known under id %s (canonical header id %s, target %s)" % (
                         op["label"], skb.hash().hex()[:16], blk.id().hex()[:16], blk.target.hex()[:8]))
                 node = self.world.accept(op["label"], blk)
-                got = b.sk_utxo_plain(cs2, node.id)
-                if got != node.utxo:
+                try:
+                    got = b.sk_utxo_plain(cs2, node.id)
+                except KeyError:
+                    got = None                                 # the state has no unspent set for the block it just took
+                    self.stat("accepted_block_without_unspent_set")
+                    if "C01" in self.focus or "C03" in self.focus:
+                        self.fail("utxo_mismatch", "accepted-block-has-no-unspent-set", "after accepting %s the state cannot tell the unspent set at that block" % op["label"])
+                if got is not None and got != node.utxo:
                     if "C01" in self.focus:
                         self.fail("utxo_mismatch", "utxo!=reference", "unspent set after %s differs from reference (%d vs %d entries)" % (op["label"], len(got), len(node.utxo)))
-                if "C02" in self.focus:
+                if "C02" in self.focus and got is not None and blk.prev in cs2.unspent_transaction_outs_by_hash:
                     s_new, s_par = self.sums(cs2, node.id), self.sums(cs2, blk.prev)
                     if s_new > s_par + R.subsidy(blk.height) or s_new != sum(v for v, _ in node.utxo.values()):
                         self.fail("inflation", "supply-grew-more-than-subsidy",
@@ -466,9 +478,9 @@ class Run:
                 if not verdict:
                     if tag:
                         self.stat("stricter_than_reference")
-                    elif self.stats.get("restarts"):
-                        # after a restart the code works on a state it rebuilt itself: a refusal there says something about
-                        # that state (judged by C08 and by the oracles that follow), not about the usefulness of this history
+                    elif self.stats.get("restarts") and self._rebuilt_state_incomplete(blk):
+                        # after a restart the code works on a state it rebuilt itself; when that state lacks blocks, a refusal
+                        # says something about the restart (judged by C08 and by the oracles that follow), not about this block
                         self.stat("honest_rejected_after_restart")
                     else:
                         self.harness.append("honest candidate %s rejected: %r" % (op["label"], err))
